@@ -65,6 +65,12 @@ def gen_kwargs(options):
     )
     if options.get("framework") in ("attrs", "dataclasses") and options.get("meta"):
         kw["meta"] = True
+    ts = options.get("types_style")
+    if ts:
+        # explicit per-call style overrides (library API): {"StringLiteral": {...}, "StringSerializable": {...}}
+        from json_to_models.dynamic_typing import StringLiteral, StringSerializable
+        cls = {"StringLiteral": StringLiteral, "StringSerializable": StringSerializable}
+        kw["types_style"] = {cls[k]: dict(v) for k, v in ts.items()}
     return kw
 
 
